@@ -241,7 +241,8 @@ def run(ctx):
         "the generator raises smaller grid sizes and counts them",
         "GeometryCollection inputs are only given to setPrecision and unary union; Z/M ordinates and curved types are not generated",
     ])
-    proved = ctx.prove(PROPS, extra_targets=(DRV,))
+    # translator tie: HotPixel's tests are regenerated from the current C++ and proved equal to Model/Precision/HotPixel.lean
+    proved = ctx.prove_generated([("hotpixel", "GeosModel/Generated/HotPixel.lean", "GeosModel.Props.C04Gen")], PROPS, extra_targets=(DRV,))
     ok, out = verif.build_geos("rel")
     if not ok:
         ctx.violation("GEOS does not build with -DGEOS_VERIF", {"kind": "build-failure", "log": out[-3000:]}, nofail=True)
